@@ -85,6 +85,16 @@ harnesses! {
         else if g >= 0 { vassert!(e == exact_sum2_gap(hi, lo, a, b, g), "near+"); }
         else { vassert!(e == exact_sum2_gap(hi, lo, b, a, -g), "near-"); }
     }
+    /// canary (vacuity guard): a deliberately false postcondition - "new_add always returns a zero low word" -
+    /// must be REFUTED on every run
+    #[kani::solver(kissat)]
+    fn canary_new_add_lo_zero() {
+        let a = any_f64!(); let b = any_f64!();
+        vassume!(pre_new_add(a, b));
+        assume_case(a, b, 3);
+        let r = TwoFloat::new_add(a, b);
+        vassert!(r.lo == 0.0, "CANARY (false on purpose): new_add returns a zero low word");
+    }
     /// from_f64 / From<f64> represent their argument exactly with a zero low word
     #[kani::solver(kissat)]
     fn from_f64_exact() {
